@@ -97,6 +97,9 @@ type inlineRet struct {
 }
 
 type FuncGen struct {
+	concrete    bool     // replay: no execution, the post state is unconstrained (see replay.go)
+	postPhase   bool     // concrete mode: lookups in the current state create fresh post-state constants
+	concreteRes []string // concrete mode: the result constants
 	inlineCount int
 	cellPrefix  string       // distinguishes the cells of an inlined callee from the caller's
 	inlineDepth int          // > 0 while executing an inlined callee
@@ -313,6 +316,12 @@ func (g *FuncGen) keySort(key string) string {
 func (g *FuncGen) get(st *State, key string) string {
 	if t, ok := st.m[key]; ok {
 		return t
+	}
+	if g.concrete && g.postPhase && st == g.st {
+		name := q(key + "@post")
+		g.sc.declConst(name, g.keySort(key))
+		st.m[key] = name
+		return name
 	}
 	t := g.initialVar(key)
 	return t
@@ -621,6 +630,7 @@ func (g *FuncGen) assumeValid(t types.Type, term string) {
 // ---------- main entry ----------
 
 type FuncResult struct {
+	G           *FuncGen // kept only when Env.KeepGen is set (replay)
 	Key         string
 	Fn          *ssa.Function
 	Prelude     string
@@ -639,6 +649,10 @@ func (env *Env) GenFunc(fn *ssa.Function, key string, c *Contract, spec *SpecFil
 		in: map[int]*State{}, out: map[int]*State{}, reach: map[int]string{}, edges: map[[2]int]string{},
 		loops: map[int]*loopInfo{}, oblN: map[string]int{}, assumptions: map[string]bool{}, interior: map[string]bool{}, nilChecked: map[string]*ssa.BasicBlock{}}
 	res = &FuncResult{Key: key, Fn: fn}
+	g.concrete = env.Concrete
+	if env.KeepGen {
+		res.G = g
+	}
 	for _, sf := range env.Specs {
 		for name := range sf.GhostVars {
 			g.ghostVar(name)
@@ -808,6 +822,19 @@ func (g *FuncGen) run() {
 		}
 	}
 
+	if g.concrete {
+		// replay: the post state is whatever the real code produced; every component is a fresh constant
+		g.st = &State{m: map[string]string{}}
+		g.postPhase = true
+		var res []string
+		rs := fn.Signature.Results()
+		for i := 0; i < rs.Len(); i++ {
+			res = append(res, g.declare("res", g.sc.sortOf(rs.At(i).Type())))
+		}
+		g.concreteRes = res
+		g.checkExit(res, fn.Pos())
+		return
+	}
 	for _, b := range g.order {
 		g.execBlock(b)
 	}
